@@ -12,8 +12,71 @@ import z3
 # deterministic budgets (resource limits, not wall clock: verdicts must not flip under load)
 RLIMIT_PROOF = 40_000_000
 RLIMIT_REFUTE = 40_000_000
+FEAS_RLIMIT = 300_000
 FEAS_TIMEOUT_MS = 400            # feasibility probes only; unknown counts as feasible
 MAX_PATHS = 4000
+
+
+_NL_CACHE = {}
+_NL_FUNS = {}
+
+
+def _nl_fun(name, sorts):
+    key = (name,) + tuple(str(x) for x in sorts)
+    f = _NL_FUNS.get(key)
+    if f is None:
+        f = z3.Function('nl!%s!%d' % (name, len(_NL_FUNS)), *sorts)
+        _NL_FUNS[key] = f
+    return f
+
+
+def abstract_nonlinear(t):
+    """Over-approximate a formula for *feasibility probes only*: products of two non-numerals and divisions /
+    modulo by a non-numeral become uninterpreted functions (z3 ignores its timeout inside nonlinear reasoning,
+    and a probe may safely answer 'feasible' too often)."""
+    i = t.get_id()
+    r = _NL_CACHE.get(i)
+    if r is not None:
+        return r[1]
+    if z3.is_quantifier(t) or not z3.is_app(t) or t.num_args() == 0:
+        r = t
+    else:
+        args = [abstract_nonlinear(a) for a in t.children()]
+        k = t.decl().kind()
+        if k == z3.Z3_OP_MUL:
+            non = [a for a in args if not (z3.is_int_value(a) or z3.is_rational_value(a))]
+            if len(non) >= 2:
+                acc = args[0]
+                for a in args[1:]:
+                    if (z3.is_int_value(a) or z3.is_rational_value(a)) or (z3.is_int_value(acc) or z3.is_rational_value(acc)):
+                        acc = acc * a
+                    else:
+                        acc = _nl_fun('mul', [acc.sort(), a.sort(), t.sort()])(acc, a)
+                r = acc
+            else:
+                r = t.decl()(*args)
+        elif k in (z3.Z3_OP_DIV, z3.Z3_OP_IDIV, z3.Z3_OP_MOD, z3.Z3_OP_REM) and not (
+                z3.is_int_value(args[1]) or z3.is_rational_value(args[1])):
+            r = _nl_fun('div%d' % k, [args[0].sort(), args[1].sort(), t.sort()])(args[0], args[1])
+        elif k == z3.Z3_OP_POWER:
+            r = _nl_fun('pow', [args[0].sort(), args[1].sort(), t.sort()])(args[0], args[1])
+        else:
+            try:
+                r = t.decl()(*args)
+            except z3.Z3Exception:
+                r = t
+    _NL_CACHE[i] = (t, r)        # keep t alive: z3 reuses ast ids of collected terms
+    if len(_NL_CACHE) > 200000:
+        _NL_CACHE.clear()
+    return r
+
+
+DEFS = {}        # RecFunction name -> (decl, vars, body): kept so that definitions can be unfolded by hand
+
+
+def define_rec(f, vs, body):
+    z3.RecAddDefinition(f, vs, body)
+    DEFS[f.name()] = (f, list(vs), body)
 
 
 class PathEnd(BaseException):
@@ -54,7 +117,7 @@ class Ctx:
         self.path_outcomes = []
         self.assumptions = set()            # textual notes collected while running (models used, ...)
         self._feas = z3.Solver()
-        self._feas.set('timeout', FEAS_TIMEOUT_MS)
+        self._set_feas_limits()
         self.reset_path([])
 
     # ---- per path -------------------------------------------------------------------------
@@ -62,12 +125,17 @@ class Ctx:
         self.decisions = list(decisions)
         self.pos = 0
         self.pc = []
+        self.pc_ids = {}
         self.counter = {}
         self.ghost = {}
         self.heap_log = []
         self.trace = []
         self._feas.reset()
+        self._set_feas_limits()
+
+    def _set_feas_limits(self):
         self._feas.set('timeout', FEAS_TIMEOUT_MS)
+        self._feas.set('rlimit', FEAS_RLIMIT)
 
     def fresh_name(self, prefix):
         n = self.counter.get(prefix, 0)
@@ -84,10 +152,10 @@ class Ctx:
         if z3.is_true(cond):
             return
         self.pc.append(cond)
-        self._feas.add(cond)
+        self._feas.add(abstract_nonlinear(cond))
 
     def feasible(self, cond):
-        r = self._feas.check(cond)
+        r = self._feas.check(abstract_nonlinear(cond))
         return r != z3.unsat
 
     def branch(self, cond, tag=''):
@@ -99,6 +167,9 @@ class Ctx:
             return True
         if z3.is_false(cond):
             return False
+        known = self.pc_ids.get(cond.get_id())
+        if known is not None:
+            return known            # syntactically decided earlier on this path: no new decision point
         if self.pos < len(self.decisions):
             d = self.decisions[self.pos]
         else:
@@ -117,7 +188,8 @@ class Ctx:
         self.pos += 1
         c = cond if d else z3.Not(cond)
         self.pc.append(c)
-        self._feas.add(c)
+        self.pc_ids[cond.get_id()] = d
+        self._feas.add(abstract_nonlinear(c))
         self.trace.append((tag, d))
         return d
 
@@ -173,21 +245,108 @@ def _mk_solver(rlimit):
     return s
 
 
-P_SMALL, R_SMALL, P_BIG, R_BIG = 3_000_000, 6_000_000, 20_000_000, 20_000_000
+_UF_OF = {}
 
 
-def _pass(ob, lemmas, ginst, kind, budget):
+def _uf_decl(f):
+    u = _UF_OF.get(f.name())
+    if u is None:
+        u = z3.Function('uf!' + f.name(), *([f.domain(i) for i in range(f.arity())] + [f.range()]))
+        _UF_OF[f.name()] = u
+    return u
+
+
+def _to_uf(t, cache):
+    """replace every RecFunction application by the application of a plain uninterpreted function"""
+    i = t.get_id()
+    r = cache.get(i)
+    if r is not None:
+        return r
+    if z3.is_quantifier(t) or not z3.is_app(t) or t.num_args() == 0:
+        r = t
+    else:
+        args = [_to_uf(a, cache) for a in t.children()]
+        d = t.decl()
+        if d.name() in DEFS and DEFS[d.name()][0].eq(d):
+            r = _uf_decl(d)(*args)
+        else:
+            try:
+                r = d(*args)
+            except z3.Z3Exception:
+                r = t
+    cache[i] = r
+    return r
+
+
+def _rec_apps(terms):
+    out, seen = [], set()
+    for t in _subterms(terms):
+        if z3.is_app(t) and t.num_args() > 0 and t.decl().name() in DEFS and DEFS[t.decl().name()][0].eq(t.decl()):
+            if t.get_id() not in seen:
+                seen.add(t.get_id())
+                out.append(t)
+    return out
+
+
+def uf_pass(ob, lemmas, rounds=4, budget=5_000_000, limit=1200):
+    """Proof pass for goals that mix RecFunction unfolding with nonlinear arithmetic (where z3 stalls):
+    RecFunctions become plain uninterpreted functions; their definitions are unfolded *by hand* on the
+    applications that occur (a few rounds) and the quantified lemmas are ground-instantiated on the occurring
+    terms.  Everything added is an instance of a definition or of a proved lemma, so `unsat` is a valid proof."""
+    forms = list(ob.hyps) + [z3.Not(ob.goal)]
+    extra, seen = [], set()
+    pool = list(forms)
+    for _ in range(rounds):
+        new = []
+        for app in _rec_apps(pool):
+            if app.get_id() in seen:
+                continue
+            seen.add(app.get_id())
+            f, vs, body = DEFS[app.decl().name()]
+            inst = z3.substitute(body, *[(v, a) for v, a in zip(vs, app.children())])
+            new.append(app == inst)
+        gi = ground_instances([l for l in lemmas if z3.is_quantifier(l)], pool, rounds=1, limit=limit)
+        for g in gi:
+            if g.get_id() not in seen:
+                seen.add(g.get_id())
+                new.append(g)
+        if not new or len(extra) + len(new) > limit:
+            extra.extend(new[:max(0, limit - len(extra))])
+            break
+        extra.extend(new)
+        pool = pool + new
+    cache = {}
     s = _mk_solver(budget)
-    for l in (lemmas if kind == 'proof' else ginst):
-        s.add(l)
-    for h in ob.hyps:
-        s.add(h)
-    s.add(z3.Not(ob.goal))
+    for f in forms + extra:
+        s.add(_to_uf(f, cache))
     r = s.check()
     return r, s
 
 
-def discharge(ob, lemmas, ground=None, want_model=True):
+P_SMALL, R_SMALL, P_BIG, R_BIG = 3_000_000, 4_000_000, 8_000_000, 6_000_000
+
+
+def _pass(ob, lemmas, ginst, kind, budget, interp=None):
+    s = _mk_solver(budget)
+    if kind == 'proof' or interp is None:
+        for l in (lemmas if kind == 'proof' else ginst):
+            s.add(l)
+        for h in ob.hyps:
+            s.add(h)
+        s.add(z3.Not(ob.goal))
+    else:
+        # counterexample search on the *interpreted* operations (uninterpreted mul/div substituted back)
+        cache = {}
+        for l in ginst:
+            s.add(interp(l, cache))
+        for h in ob.hyps:
+            s.add(interp(h, cache))
+        s.add(interp(z3.Not(ob.goal), cache))
+    r = s.check()
+    return r, s
+
+
+def discharge(ob, lemmas, ground=None, want_model=True, interp=None, hints=None):
     """Two kinds of pass (DESIGN 3.6): *proof* with the quantified lemmas; *refutation* quantifier-free with
     ground axiom instances (gives models; with lemmas present z3 answers unknown for every false goal).
     Budgets are rlimits (deterministic).  Order: small proof, small refutation, big proof, big refutation.
@@ -200,6 +359,12 @@ def discharge(ob, lemmas, ground=None, want_model=True):
     if ground is not None and lemmas:
         ginst = ground(list(ob.hyps) + [ob.goal])
     model = None
+    if hints is not None:
+        # ground instances (on the obligation's own terms) of proved laws that must not be given to the solver
+        # as quantifiers; they are extra hypotheses of the proof passes
+        hs = hints(list(ob.hyps) + [ob.goal])
+        if hs:
+            ob.hyps = list(ob.hyps) + list(hs)
 
     def note(kind, budget, r, s):
         notes.append('%s@%dM:%s' % (kind, budget // 1_000_000, s.reason_unknown() if r == z3.unknown else r))
@@ -212,13 +377,20 @@ def discharge(ob, lemmas, ground=None, want_model=True):
     else:
         note('proof', P_SMALL, r, s)
         if lemmas:
-            r2, s2 = _pass(ob, lemmas, ginst, 'refute', R_SMALL)
+            r2, s2 = _pass(ob, lemmas, ginst, 'refute', R_SMALL, interp)
             if r2 == z3.unsat:
                 ob.status = 'proved'
             elif r2 == z3.sat:
                 model = s2.model()
             else:
                 note('refute', R_SMALL, r2, s2)
+        if ob.status is None and lemmas:
+            ru, su = uf_pass(ob, lemmas)
+            if ru == z3.unsat:
+                ob.status = 'proved'
+                ob.backend = 'z3(uf-pass)'
+            else:
+                note('uf', 20_000_000, ru, su)
         if ob.status is None:
             r3, s3 = _pass(ob, lemmas, ginst, 'proof', P_BIG)
             if r3 == z3.unsat:
@@ -228,7 +400,7 @@ def discharge(ob, lemmas, ground=None, want_model=True):
             else:
                 note('proof', P_BIG, r3, s3)
                 if model is None and lemmas:
-                    r4, s4 = _pass(ob, lemmas, ginst, 'refute', R_BIG)
+                    r4, s4 = _pass(ob, lemmas, ginst, 'refute', R_BIG, interp)
                     if r4 == z3.unsat:
                         ob.status = 'proved'
                     elif r4 == z3.sat:
